@@ -138,3 +138,13 @@ example : entryType (ascii "patch-aa") = .patchfile ∧ entryType (ascii "emul-l
     entryType (ascii "patch-local-x") = .distfile ∧ entryType (ascii "patch-2.7.6.tar.xz") = .distfile ∧
     entryType (ascii "emul-patch-x") = .distfile ∧ entryType (ascii "foo.patch-1") = .distfile := by
   decide +kernel
+
+/-- `Line::from_bytes` also accepts text with embedded newlines (the first sub-line that is
+    neither blank nor a comment decides).  `Distinfo::from_bytes` only ever passes it
+    '\n'-free pieces, on which that loop runs exactly once — so the document parser written
+    with the code's own call structure is the model's `distinfoFromBytes`, to which all C10–C12
+    theorems refer. -/
+theorem C11_line_loop_runs_once (b : Bytes) :
+    (∀ l ∈ splitNl' b, lineFromBytesNl l = lineFromBytes l) ∧
+    (splitNl' b).foldl (fun d line => d.applyLine (lineFromBytesNl line)) {} = distinfoFromBytes b :=
+  ⟨fun l hl => lineFromBytesNl_of_no_nl l (splitNl'_pieces b l hl), distinfoFromBytes_mirrors b⟩
